@@ -14,7 +14,9 @@ Inductive regclass := RAny | RHigh | RMul | REven | RWord.
 Inductive immkind :=
 | KImm8                (* written -128..255, field = value mod 256 *)
 | KU (bits : Z)        (* 0 .. 2^bits-1 *)
-| KRel (bits : Z)      (* target address; field = target - (pc+1), two's complement in [bits] bits *)
+| KRel (bits : Z)      (* signed displacement d (target = address of the instruction + 1 + d), two's complement in [bits] bits *)
+| KAddr (hibits : Z)   (* address 0 .. 2^(16+hibits)-1 of a two-word instruction: the letter field holds
+                          address / 65536, the second word holds address mod 65536 ("+16k" in the manual) *)
 | KRAddr.              (* reduced-core lds/sts address 0x40..0xBF: k3..0 -> 'k', k4 -> 'a', k5 -> 'b', k6 -> 'c' *)
 Inductive idxf := FX | FXp | FmX | FY | FYp | FmY | FZ | FZp | FmZ.
 Inductive opspec :=
@@ -58,8 +60,8 @@ Definition table : list row := [
   mk "movw" CAny "0000 0001 dddd rrrr" [PReg d_ REven; PReg r_ REven];
   mk "rjmp" CAny "1100 kkkk kkkk kkkk" [PExp k_ (KRel 12)];
   mk "rcall" CAny "1101 kkkk kkkk kkkk" [PExp k_ (KRel 12)];
-  mk "jmp" CAny "1001 010k kkkk 110k kkkk kkkk kkkk kkkk" [PExp k_ (KU 22)];
-  mk "call" CAny "1001 010k kkkk 111k kkkk kkkk kkkk kkkk" [PExp k_ (KU 22)];
+  mk "jmp" CAny "1001 010k kkkk 110k" [PExp k_ (KAddr 6)];
+  mk "call" CAny "1001 010k kkkk 111k" [PExp k_ (KAddr 6)];
   mk "brbs" CAny "1111 00kk kkkk ksss" [PExp s_ (KU 3); PExp k_ (KRel 7)];
   mk "brbc" CAny "1111 01kk kkkk ksss" [PExp s_ (KU 3); PExp k_ (KRel 7)];
   r0 "ijmp" "1001 0100 0000 1001"; r0 "eijmp" "1001 0100 0001 1001";
@@ -105,8 +107,8 @@ Definition table : list row := [
   mk "st" CAny "1001 001d dddd 0010" [PIdx FmZ; PReg d_ RAny];
   mk "std" CAny "10q0 qq1d dddd 1qqq" [PIdxQ true; PReg d_ RAny];
   mk "std" CAny "10q0 qq1d dddd 0qqq" [PIdxQ false; PReg d_ RAny];
-  mk "lds" CFull "1001 000d dddd 0000 kkkk kkkk kkkk kkkk" [PReg d_ RAny; PExp k_ (KU 16)];
-  mk "sts" CFull "1001 001d dddd 0000 kkkk kkkk kkkk kkkk" [PExp k_ (KU 16); PReg d_ RAny]
+  mk "lds" CFull "1001 000d dddd 0000" [PReg d_ RAny; PExp k_ (KAddr 0)];
+  mk "sts" CFull "1001 001d dddd 0000" [PExp k_ (KAddr 0); PReg d_ RAny]
 ].
 
 (** documented aliases, as rewriting of what was written into the canonical spelling *)
@@ -189,63 +191,85 @@ Definition idxf_eqb (a b : idxf) : bool :=
   | FX, FX | FXp, FXp | FmX, FmX | FY, FY | FYp, FYp | FmY, FmY | FZ, FZ | FZp, FZp | FmZ, FmZ => true
   | _, _ => false end.
 
-(** fields contributed by one written operand, or None when it does not fit the row *)
-Definition enc_op (pc : Z) (p : opspec) (w : warg) : option env :=
+(** fields contributed by one written operand (and the second instruction word, if the operand
+    supplies one), or None when it does not fit the row *)
+Definition enc_op (p : opspec) (w : warg) : option (env * option Z) :=
   match p, w with
-  | PReg l c, WReg n => match reg_field c n with Some f => Some [(l, f)] | None => None end
-  | PExp l KImm8, WExp v => if (-128 <=? v) && (v <=? 255) then Some [(l, v mod 256)] else None
-  | PExp l (KU bits), WExp v => if (0 <=? v) && (v <? 2 ^ bits) then Some [(l, v)] else None
-  | PExp l (KRel bits), WExp v =>
-      let d := v - (pc + 1) in
-      if (- 2 ^ (bits - 1) <=? d) && (d <? 2 ^ (bits - 1)) then Some [(l, d mod 2 ^ bits)] else None
+  | PReg l c, WReg n => match reg_field c n with Some f => Some ([(l, f)], None) | None => None end
+  | PExp l KImm8, WExp v => if (-128 <=? v) && (v <=? 255) then Some ([(l, v mod 256)], None) else None
+  | PExp l (KU bits), WExp v => if (0 <=? v) && (v <? 2 ^ bits) then Some ([(l, v)], None) else None
+  | PExp l (KRel bits), WExp d =>
+      if (- 2 ^ (bits - 1) <=? d) && (d <? 2 ^ (bits - 1)) then Some ([(l, d mod 2 ^ bits)], None) else None
+  | PExp l (KAddr hibits), WExp v =>
+      if (0 <=? v) && (v <? 65536 * 2 ^ hibits) then Some ([(l, v / 65536)], Some (v mod 65536)) else None
   | PExp l KRAddr, WExp v =>
       if (64 <=? v) && (v <=? 191)
-      then Some [(l, v mod 16); ("a"%char, (v / 16) mod 2); ("b"%char, (v / 32) mod 2); ("c"%char, (v / 64) mod 2)]
+      then Some ([(l, v mod 16); ("a"%char, (v / 16) mod 2); ("b"%char, (v / 32) mod 2); ("c"%char, (v / 64) mod 2)], None)
       else None
-  | PIdx f, WIdx f' => if idxf_eqb f f' then Some [] else None
-  | PIdxQ y, WIdxQ y' q => if Bool.eqb y y' && (0 <=? q) && (q <=? 63) then Some [(q_, q)] else None
+  | PIdx f, WIdx f' => if idxf_eqb f f' then Some ([], None) else None
+  | PIdxQ y, WIdxQ y' q => if Bool.eqb y y' && (0 <=? q) && (q <=? 63) then Some ([(q_, q)], None) else None
   | _, _ => None
   end.
-Fixpoint enc_ops (pc : Z) (ps : list opspec) (ws : list warg) : option env :=
+Definition or_else (a b : option Z) : option Z := match a with Some _ => a | None => b end.
+Fixpoint enc_ops (ps : list opspec) (ws : list warg) : option (env * option Z) :=
   match ps, ws with
-  | [], [] => Some []
+  | [], [] => Some ([], None)
   | p :: ps', w :: ws' =>
-      match enc_op pc p w, enc_ops pc ps' ws' with Some a, Some b => Some (a ++ b)%list | _, _ => None end
+      match enc_op p w, enc_ops ps' ws' with
+      | Some (a, x), Some (b, y) => Some ((a ++ b)%list, or_else x y)
+      | _, _ => None
+      end
   | _, _ => None
   end.
 
 Definition core_ok (c : core) (s : coresel) : bool :=
   match s, c with CAny, _ | CFull, Full | CReduced, Reduced => true | _, _ => false end.
 
-(** pre-compiled rows: reversed pattern, number of words *)
-Record crow := { c_row : row; c_pat : pat; c_words : Z }.
+(** pre-compiled rows: reversed pattern and the fixed bits of the pattern as a (mask, value) pair
+    so that the decoder can reject a row with one comparison *)
+Record crow := { c_row : row; c_pat : pat; c_mask : Z; c_val : Z }.
+Definition fixed_only (one : bool) (c : ascii) : ascii :=
+  if Ascii.eqb c "0"%char then (if one then "1" else "0")%char
+  else if Ascii.eqb c "1"%char then "1"%char else "0"%char.
 Definition compile (r : row) : crow :=
-  let p := mkpat (r_pat r) in {| c_row := r; c_pat := p; c_words := Z.of_nat (List.length p) / 16 |}.
+  let p := mkpat (r_pat r) in
+  {| c_row := r; c_pat := p; c_mask := pack (map (fixed_only true) p) []; c_val := pack (map (fixed_only false) p) [] |}.
 Definition ctable : list crow := Eval vm_compute in map compile table.
 
-Definition split_words (n v : Z) : list Z := if n =? 2 then [v / 65536; v mod 65536] else [v].
-
-Definition row_words (c : core) (pc : Z) (r : crow) (name : string) (w : list warg) : option (list Z) :=
-  if String.eqb (r_name (c_row r)) name && core_ok c (r_core (c_row r)) then
-    match enc_ops pc (r_ops (c_row r)) w with
-    | Some e => Some (split_words (c_words r) (pack (c_pat r) e))
-    | None => None
-    end
-  else None.
-Fixpoint first_row (c : core) (pc : Z) (t : list crow) (name : string) (w : list warg) : option (list Z) :=
-  match t with
-  | [] => None
-  | r :: t' => match row_words c pc r name w with Some ws => Some ws | None => first_row c pc t' name w end
-  end.
-
-(** THE SPECIFICATION.  [expect c pc name w] = the instruction words the ISA defines for the
-    statement "name w" at word address pc, or None when the ISA cannot encode it (then the
-    assembler must fail). *)
-Definition expect (c : core) (pc : Z) (name : string) (w : list warg) : option (list Z) :=
-  match canon name w with
-  | Some (n, w') => first_row c pc ctable n w'
+Definition rows_for (c : core) (name : string) : list crow :=
+  filter (fun r => String.eqb (r_name (c_row r)) name && core_ok c (r_core (c_row r))) ctable.
+Definition row_words (r : crow) (w : list warg) : option (list Z) :=
+  match enc_ops (r_ops (c_row r)) w with
+  | Some (e, second) => Some (pack (c_pat r) e :: match second with Some x => [x] | None => [] end)
   | None => None
   end.
+Fixpoint first_fit (t : list crow) (w : list warg) : option (list Z) :=
+  match t with
+  | [] => None
+  | r :: t' => match row_words r w with Some ws => Some ws | None => first_fit t' w end
+  end.
+
+(** THE SPECIFICATION.  [expect c name w] = the instruction words the ISA defines for the
+    statement "name w", or None when the ISA cannot encode it (then the assembler must fail).
+    The operand of a relative jump or branch is the displacement d here; [expect_at] is the same
+    for the target address as it is written in the source of an instruction at word address pc. *)
+Definition expect (c : core) (name : string) (w : list warg) : option (list Z) :=
+  match canon name w with
+  | Some (n, w') => first_fit (rows_for c n) w'
+  | None => None
+  end.
+
+Definition is_relative (name : string) : bool :=
+  String.eqb name "rjmp" || String.eqb name "rcall" || String.eqb (substring 0 2 name) "br" && negb (String.eqb name "break").
+(** turn the last operand, when it is an expression, from a target address into a displacement (and back) *)
+Definition shift_arg (delta : Z) (w : warg) : warg := match w with WExp v => WExp (v + delta) | x => x end.
+Fixpoint shift_last (delta : Z) (w : list warg) : list warg :=
+  match w with
+  | [] => []
+  | x :: r => match r with [] => [shift_arg delta x] | _ => x :: shift_last delta r end
+  end.
+Definition expect_at (c : core) (pc : Z) (name : string) (w : list warg) : option (list Z) :=
+  expect c name (if is_relative name then shift_last (- (pc + 1)) w else w).
 
 (** ---------- independent decoder (pattern matcher over the same table) ---------- *)
 Definition uenv := list (ascii * (Z * Z)).         (* letter -> (value so far, weight of next bit) *)
@@ -265,7 +289,7 @@ Fixpoint unpack (p : pat) (w : Z) (e : uenv) : option uenv :=
 Definition field (c : ascii) (e : uenv) : Z :=
   match find (fun kv => Ascii.eqb (fst kv) c) e with Some (_, (v, _)) => v | None => 0 end.
 
-Definition dec_op (pc : Z) (e : uenv) (p : opspec) : warg :=
+Definition dec_op (e : uenv) (second : Z) (p : opspec) : warg :=
   match p with
   | PReg l RAny => WReg (field l e)
   | PReg l RHigh | PReg l RMul => WReg (16 + field l e)
@@ -273,30 +297,72 @@ Definition dec_op (pc : Z) (e : uenv) (p : opspec) : warg :=
   | PReg l RWord => WReg (24 + 2 * field l e)
   | PExp l KImm8 | PExp l (KU _) => WExp (field l e)
   | PExp l (KRel bits) =>
-      let f := field l e in WExp (pc + 1 + (if f <? 2 ^ (bits - 1) then f else f - 2 ^ bits))
+      let f := field l e in WExp (if f <? 2 ^ (bits - 1) then f else f - 2 ^ bits)
+  | PExp l (KAddr _) => WExp (field l e * 65536 + second)
   | PExp l KRAddr =>
       let c := field "c"%char e in
       WExp (field l e + 16 * field "a"%char e + 32 * field "b"%char e + 64 * c + (if c =? 0 then 128 else 0))
   | PIdx f => WIdx f
   | PIdxQ y => WIdxQ y (field q_ e)
   end.
+Definition two_word (ps : list opspec) : bool :=
+  existsb (fun p => match p with PExp _ (KAddr _) => true | _ => false end) ps.
 
-Definition join_words (ws : list Z) : option (Z * Z) :=
-  match ws with [a] => Some (1, a) | [a; b] => Some (2, a * 65536 + b) | _ => None end.
-
-Fixpoint decode_in (c : core) (pc : Z) (t : list crow) (n v : Z) : option (string * list warg) :=
+(** [decode c ws]: the first row (of the core) whose fixed bits match the first word and whose
+    length is the number of words given; its operand fields are then read back *)
+Fixpoint find_row (c : core) (t : list crow) (two : bool) (w1 : Z) : option (crow * uenv) :=
   match t with
   | [] => None
   | r :: t' =>
-      if (c_words r =? n) && core_ok c (r_core (c_row r)) then
-        match unpack (c_pat r) v [] with
-        | Some e => Some (r_name (c_row r), map (dec_op pc e) (r_ops (c_row r)))
-        | None => decode_in c pc t' n v
+      if Bool.eqb (two_word (r_ops (c_row r))) two && (Z.land w1 (c_mask r) =? c_val r) && core_ok c (r_core (c_row r)) then
+        match unpack (c_pat r) w1 [] with
+        | Some e => Some (r, e)
+        | None => find_row c t' two w1
         end
-      else decode_in c pc t' n v
+      else find_row c t' two w1
   end.
-Definition decode (c : core) (pc : Z) (ws : list Z) : option (string * list warg) :=
-  match join_words ws with Some (n, v) => decode_in c pc ctable n v | None => None end.
+Definition decode_in (c : core) (two : bool) (w1 w2 : Z) : option (string * list warg) :=
+  match find_row c ctable two w1 with
+  | Some (r, e) => Some (r_name (c_row r), map (dec_op e w2) (r_ops (c_row r)))
+  | None => None
+  end.
+Definition decode (c : core) (ws : list Z) : option (string * list warg) :=
+  match ws with
+  | [a] => decode_in c false a 0
+  | [a; b] => decode_in c true a b
+  | _ => None
+  end.
 
-(** canonical rendering of written operands for comparison with the decoder's output *)
-Definition norm_arg (w : warg) : warg := match w with WExp v => WExp v | x => x end.
+(** what the decoder returns for a written statement: canonical spelling, immediates as 0..255 *)
+Definition norm_arg (w : warg) : warg :=
+  match w with WExp v => if (-128 <=? v) && (v <? 0) then WExp (v + 256) else w | x => x end.
+Definition canon_norm (name : string) (w : list warg) : option (string * list warg) :=
+  match canon name w with
+  | Some (n, w') =>
+      let imm8 := existsb (String.eqb n) ["subi"; "sbci"; "andi"; "ori"; "cpi"; "ldi"] in
+      Some (n, if imm8 then map norm_arg w' else w')
+  | None => None
+  end.
+
+(** ---------- the assembler spellings: the quantifier domain of "every supported mnemonic and
+    every operand combination the ISA allows" ---------- *)
+Record spelling := { sp_name : string; sp_core : coresel; sp_ops : list opspec }.
+Definition sp n o := {| sp_name := n; sp_core := CAny; sp_ops := o |}.
+Definition all_idx := [FX; FXp; FmX; FY; FYp; FmY; FZ; FZp; FmZ].
+Definition alias_spellings : list spelling :=
+  map (fun n => sp n [PReg d_ RAny]) ["lsl"; "rol"; "tst"; "clr"] ++
+  [sp "ser" [PReg d_ RHigh]; sp "sbr" [PReg d_ RHigh; PExp K_ KImm8]; sp "cbr" [PReg d_ RHigh; PExp K_ KImm8]] ++
+  map (fun kv => sp (fst kv) [PExp k_ (KRel 7)]) br_alias ++
+  map (fun kv => sp (fst kv) []) flag_alias ++
+  [sp "ld" [PReg d_ RAny; PIdx FY]; sp "ld" [PReg d_ RAny; PIdx FZ];
+   sp "ld" [PReg d_ RAny; PIdxQ true]; sp "ld" [PReg d_ RAny; PIdxQ false];
+   sp "st" [PIdx FY; PReg d_ RAny]; sp "st" [PIdx FZ; PReg d_ RAny];
+   sp "st" [PIdxQ true; PReg d_ RAny]; sp "st" [PIdxQ false; PReg d_ RAny]] ++
+  map (fun f => sp "ldd" [PReg d_ RAny; PIdx f]) all_idx ++
+  map (fun f => sp "std" [PIdx f; PReg d_ RAny]) all_idx.
+Definition spellings : list spelling :=
+  map (fun r => {| sp_name := r_name r; sp_core := r_core r; sp_ops := r_ops r |}) table ++ alias_spellings.
+
+(** the operand tuples a spelling admits *)
+Definition fits (ps : list opspec) (ws : list warg) : bool :=
+  match enc_ops ps ws with Some _ => true | None => false end.
